@@ -1,6 +1,6 @@
 (* Property C01 — results do not depend on the order of rows in the input data. *)
 From Coq Require Import ZArith Bool String List Permutation.
-From GettsimModel Require Import Num Val Ast Eval PolicyEnv Column Aggregation Engine Dag Perm Table TablePerm.
+From GettsimModel Require Import Num Val Ast Eval PolicyEnv Column Aggregation Engine Dag Perm Table TablePerm Groupings CoupleSpec.
 Import ListNotations.
 
 (* the generic engine lemma: if the inputs of two runs are related and every node operation
@@ -62,3 +62,14 @@ Theorem C01_pointer_sums_permute : forall {A} (add : A -> A -> A) zero,
   sum_by_p_id_list add zero (pl dl p col) (pl 0%Z p ptr) (pl 0%Z p pids) = Ok (pl dl p out).
 Proof. intros A add zero Hc Ha. exact (SbpPerm.sum_by_p_id_list_perm add zero Hc Ha). Qed.
 Print Assumptions C01_pointer_sums_permute.
+
+(* the id builders are outside run_perm_b (they renumber in row order); for the partner-based ones the
+   PARTITION is row-order free for tables of any size *)
+Theorem C01_partner_units_order_free : forall ptr ps ps', couple_wf ptr ps -> Permutation ps ps' ->
+  let ids := couple_loop (map (fun x => (pid x, ptr x)) ps) [] 0 in
+  let ids' := couple_loop (map (fun x => (pid x, ptr x)) ps') [] 0 in
+  forall i j i' j' a b,
+    nth_error ps i = Some a -> nth_error ps j = Some b -> nth_error ps' i' = Some a -> nth_error ps' j' = Some b ->
+    (nth_error ids i = nth_error ids j <-> nth_error ids' i' = nth_error ids' j').
+Proof. exact couple_order_free. Qed.
+Print Assumptions C01_partner_units_order_free.
